@@ -155,8 +155,9 @@ def extra_closures() -> List[dict]:
 
 def run(chk: Check):
     rng = random.Random(chk.seed + 16)
-    if not regen_or_report(chk):
-        return
+    # a translator that fails closed is reported (broken obligation); the implementation is still run against the
+    # spec oracle and the (last generated) model, so that a behavioural change comes with a concrete failing input
+    regen_or_report(chk)
     chk.prove(FAM, "Props.C16", THEOREMS)
     chk.prove(FAM, "Props.C16Core", CORE_THEOREMS)
     from ..translate import tables as T
